@@ -198,7 +198,7 @@ static void intArrayOp(Out &o, occa::device dev, const std::string &op, int n, i
 
   // forEach -----------------------------------------------------------------
   } else if (op == "each1" || op == "each2" || op == "each3") {
-    const int slots = 32;
+    const int slots = 64;              // each1 stores at value + 24, |value| <= 17
     std::vector<int> ref((size_t) slots, 0);
     occa::array<int> dOut = mkArray<int>(dev, ref, 0, 0);
     occa::memory mOut = dOut.memory();
@@ -206,7 +206,7 @@ static void intArrayOp(Out &o, occa::device dev, const std::string &op, int n, i
     occa::scope sc({{"out", mOut}});
     if (op == "each1") {
       // several elements may carry the same value: the store is idempotent (no OpenMP race on the verdict)
-      auto fn = OCCA_FUNCTION(sc, [=](const int &value) -> void { out[value + 12] = value; });
+      auto fn = OCCA_FUNCTION(sc, [=](const int &value) -> void { out[value + 24] = value; });
       a.forEach(fn);
       for (int i = 0; i < n; ++i) fn(h[i]);
     } else if (op == "each2") {
@@ -282,7 +282,7 @@ static void intArrayOp(Out &o, occa::device dev, const std::string &op, int n, i
     expectVec<int>(o, op + ":self", a, w);
   } else if (op == "includes") {
     expectVal<bool>(o, op + ":present", a.includes(2), std::find(h.begin(), h.end(), 2) != h.end());
-    expectVal<bool>(o, op + ":absent", a.includes(99), false);
+    expectVal<bool>(o, op + ":absent", a.includes(9999), false);
   } else if (op == "indexof") {
     auto it = std::find(h.begin(), h.end(), 2);
     const int matches = (int) std::count(h.begin(), h.end(), 2);
@@ -290,14 +290,14 @@ static void intArrayOp(Out &o, occa::device dev, const std::string &op, int n, i
     const long g = (long) a.indexOf(2);
     if (g != w) o.fail(op + ":value" + (matches > 1 ? ":multi-match" : ""), "got " + sstr(g) + " want " + sstr(w));
     else o.ok(op + " " + sstr(g));
-    expectVal<long>(o, op + ":absent", (long) a.indexOf(99), -1L);
+    expectVal<long>(o, op + ":absent", (long) a.indexOf(9999), -1L);
   } else if (op == "lastindexof") {
     long w = -1; for (int i = 0; i < n; ++i) if (h[i] == 2) w = i;
     const int matches = (int) std::count(h.begin(), h.end(), 2);
     const long g = (long) a.lastIndexOf(2);
     if (g != w) o.fail(op + ":value" + (matches > 1 ? ":multi-match" : ""), "got " + sstr(g) + " want " + sstr(w));
     else o.ok(op + " " + sstr(g));
-    expectVal<long>(o, op + ":absent", (long) a.lastIndexOf(99), -1L);
+    expectVal<long>(o, op + ":absent", (long) a.lastIndexOf(9999), -1L);
   } else if (op == "cast") {
     std::vector<double> w(h.begin(), h.end());
     expectVec<double>(o, op, a.cast<double>(), w);
@@ -436,8 +436,8 @@ static void intArrayOp(Out &o, occa::device dev, const std::string &op, int n, i
       c.fill(5);
       expectVec<int>(o, op + ":clone-independent", a, h);
     }
-    for (int m = 1; m <= n + 2; ++m) {
-      occa::array<int> r = a.clone();
+    for (int m = 0; m <= n + 2; ++m) {
+      occa::array<int> r = mkArray<int>(dev, h, ts, ti);
       r.resize(m);
       if ((int) r.length() != m) { o.fail(op + ":resize:length", "resize(" + sstr(m) + ") gives " + sstr(r.length())); continue; }
       std::vector<int> g = fetch(r);
@@ -723,17 +723,24 @@ static void forLoopOp(Out &o, occa::device dev, const std::string &outerS, const
   const int no = (int) os.size(), ni = (int) is.size();
 
   if (no == 1 && ni == 0) {
+    // a kernel needs an @inner loop: without .inner() the body has to bring its own
     auto fn = OCCA_FUNCTION(sc, [=](const int oidx) -> void {
-      const int c0 = oidx + 5;
-      if (c0 < 0 || c0 > 15) { hits[65536] += 1; } else { hits[c0] += 1; }
+      OKL("@inner");
+      for (int k = 0; k < 2; ++k) {
+        const int c0 = oidx + 5;
+        if (c0 < 0 || c0 > 15) { hits[65536] += 1; } else { hits[c0 * 16 + k] += 1; }
+      }
     });
     loop.outer(oi[0]).run(fn);
     for (int a : ov[0]) fn(a);
   } else if (no == 2 && ni == 0) {
     auto fn = OCCA_FUNCTION(sc, [=](const int2 oidx) -> void {
-      const int c0 = oidx.x + 5;
-      const int c1 = oidx.y + 5;
-      if (c0 < 0 || c0 > 15 || c1 < 0 || c1 > 15) { hits[65536] += 1; } else { hits[c0 * 16 + c1] += 1; }
+      OKL("@inner");
+      for (int k = 0; k < 2; ++k) {
+        const int c0 = oidx.x + 5;
+        const int c1 = oidx.y + 5;
+        if (c0 < 0 || c0 > 15 || c1 < 0 || c1 > 15) { hits[65536] += 1; } else { hits[(c0 * 16 + c1) * 16 + k] += 1; }
+      }
     });
     loop.outer(oi[0], oi[1]).run(fn);
     for (int a : ov[0]) for (int b : ov[1]) fn(int2(a, b));
